@@ -766,7 +766,83 @@ def gen_program(rng, length=30):
         new({'op': 'vec', 'frozen': fr, 'how': rng.choice(['num', 'kw', 'iter']), 'v': [b(gen_value(rng)) for _ in range(3)]}, 'FV' if fr else 'V')
     fr = rng.random() < 0.6
     new({'op': 'mat', 'frozen': fr, 'how': rng.choice(['yaw', 'pitch', 'roll']), 'v': [b(gen_value(rng))]}, 'FM' if fr else 'M')
-    while len(prog) < length:
+    def kind_of(i):
+        return next(k for k in live if i in live[k])
+
+    def observer(x, k):
+        """one observation step of object x (kind k): copy / freeze / thaw / Angle(a) / FrozenAngle(a) / str / pickle"""
+        opts = ['copy', 'copy.copy', 'deepcopy', 'pickle']
+        if k in ('A', 'V', 'M'): opts += ['freeze', 'freeze']
+        if k in ('FA', 'FV', 'FM'): opts += ['thaw']
+        if k in ('A', 'FA'): opts += ['Angle', 'FrozenAngle']
+        if k in ('M', 'FM'): opts += ['Matrix', 'FrozenMatrix', 'to_angle']
+        if k in ('A', 'FA', 'V', 'FV'): opts += ['str', 'repr', 'join']
+        o = rng.choice(opts)
+        if o == 'freeze': return {'op': 'freeze', 'src': x}, 'F' + k
+        if o == 'thaw': return {'op': 'thaw', 'src': x}, k[1:]
+        if o in ('Angle', 'FrozenAngle'): return {'op': 'ang_copyctor', 'frozen': o == 'FrozenAngle', 'src': x}, 'FA' if o == 'FrozenAngle' else 'A'
+        if o in ('Matrix', 'FrozenMatrix'):
+            return {'op': 'mat', 'frozen': o == 'FrozenMatrix', 'how': 'copyctor', 'src': x, 'v': [0, 0, 0, 0]}, 'FM' if o == 'FrozenMatrix' else 'M'
+        if o == 'to_angle': return {'op': 'to_angle', 'src': x, 'v': b(0.0)}, 'A'
+        if o in ('str', 'repr', 'join'): return {'op': 'str', 'src': x, 'how': o}, None
+        return {'op': 'copy', 'src': x, 'how': o, 'proto': rng.randrange(2, 6)}, k
+
+    def mutator(x, k):
+        """one in-place operation on x (for a frozen x: the operators that must rebind instead of mutating)"""
+        rot = pick('A', 'FA', 'M', 'FM')
+        if rot is None or rng.random() < 0.5:
+            fr = rng.random() < 0.5
+            if rng.random() < 0.5:
+                new({'op': 'ang', 'frozen': fr, 'how': 'num', 'v': [b(float(rng.randrange(1, 24) * 15)) for _ in range(3)]}, 'FA' if fr else 'A')
+            else:
+                new({'op': 'mat', 'frozen': fr, 'how': rng.choice(['yaw', 'pitch', 'roll']), 'v': [b(float(rng.randrange(1, 24) * 15))]}, 'FM' if fr else 'M')
+            rot = len(prog) - 1
+        if k == 'A':
+            opts = ['set-prop', 'set-item', 'iscale', 'imatmul', 'imatmul', 'imatmul', 'transform']
+        elif k == 'V':
+            opts = ['set-prop', 'set-item', 'iscale', 'imatmul', 'imatmul', 'transform', 'vibin', 'vminmax', 'localise', 'rotate']
+        elif k == 'M':
+            opts = ['mset', 'imatmul', 'imatmul']
+        else:
+            opts = ['iscale', 'imatmul', 'imatmul', 'attack'] if k != 'FM' else ['imatmul', 'attack']
+        o = rng.choice(opts)
+        if o in ('set-prop', 'set-item'):
+            return {'op': 'set', 'tgt': x, 'slot': rng.randrange(3), 'v': b(gen_value(rng)), 'via': o[4:], 'key': rng.randrange(4), 'int': False}, None
+        if o == 'iscale': return {'op': 'iscale', 'tgt': x, 'v': b(rng.choice([2.0, 0.5, -1.0, 3.0, 1 / 3]))}, (k if k in ('FA', 'FV') else None)
+        if o == 'imatmul': return {'op': 'imatmul', 'a': x, 'b': rot}, (k if k in ('FA', 'FV', 'FM') else None)
+        if o == 'transform': return {'op': 'transform', 'tgt': x, 'b': rot, 'c': None, 'yaw': b(float(rng.randrange(1, 24) * 15))}, None
+        if o == 'mset': return {'op': 'mset', 'tgt': x, 'r': rng.randrange(3), 'c': rng.randrange(3), 'v': b(rng.uniform(-1, 1))}, None
+        if o == 'vibin': return {'op': 'vibin', 'a': x, 'b': pick('V', 'FV'), 'sub': rng.random() < 0.5}, None
+        if o == 'vminmax': return {'op': 'vminmax', 'a': x, 'b': pick('V', 'FV'), 'max': rng.random() < 0.5}, None
+        if o == 'localise': return {'op': 'localise', 'tgt': x, 'b': pick('V', 'FV'), 'c': rot}, None
+        if o == 'rotate': return {'op': 'rotate', 'tgt': x, 'v': [b(float(rng.randrange(24) * 15)) for _ in range(3)], 'text': None}, None
+        return {'op': 'attack', 'tgt': x, 'f': rng.choice(['setprop', 'setitem', 'delattr', 'init'])}, None
+
+    def triple():
+        """directed history [O(x); M(x); O(x)] on the SAME live object: every observation must show the current value"""
+        x = pick('A', 'A', 'A', 'V', 'M', 'FA', 'FV', 'FM')
+        if x is None:
+            return
+        k = kind_of(x)
+        st1, rk1 = observer(x, k)
+        new(dict(st1), rk1)
+        for _ in range(rng.randrange(1, 3)):
+            st, rk = mutator(x, k)
+            new(st, rk)
+        if rng.random() < 0.6:      # the very same observer again
+            new(dict(st1), rk1)
+        else:
+            st2, rk2 = observer(x, k)
+            new(st2, rk2)
+
+    n_triples = rng.randrange(1, 4)
+    triple_at = sorted(rng.randrange(len(prog), max(len(prog) + 1, length)) for _ in range(n_triples))
+    while len(prog) < length or triple_at:
+        while triple_at and len(prog) >= triple_at[0]:
+            triple_at.pop(0)
+            triple()
+        if len(prog) >= length:
+            continue
         c = rng.random()
         if c < 0.08:
             fr = rng.random() < 0.5
